@@ -46,6 +46,7 @@ type rig struct {
 	GoodCred   string
 	DialErr    map[string]error          // Outbound.TCP error per address
 	Targets    map[string]*vnet.Conn     // harness end of the pipe handed out by Outbound.TCP, per address
+	RelayEnds  map[string]*vnet.Conn     // the end given to the server, per address
 	TargetBuf  int
 	UDPSocks   []*rigUDPConn
 	TrafficVeto func(n int, id string, tx, rx uint64) bool // n = 1-based LogTraffic call; true = veto
@@ -83,6 +84,7 @@ func (o rigOutbound) TCP(reqAddr string) (net.Conn, error) {
 	}
 	srvEnd, tgtEnd := vnet.Pipe("relay>"+reqAddr, "target:"+reqAddr, buf)
 	o.r.Targets[reqAddr] = tgtEnd
+	o.r.RelayEnds[reqAddr] = srvEnd
 	return srvEnd, nil
 }
 
@@ -198,7 +200,7 @@ type rigOpts struct {
 }
 
 func newRig(e *vsched.Exec, o rigOpts) *rig {
-	r := &rig{e: e, GoodCred: "good", DialErr: map[string]error{}, Targets: map[string]*vnet.Conn{}, Online: map[string]int{}}
+	r := &rig{e: e, GoodCred: "good", DialErr: map[string]error{}, Targets: map[string]*vnet.Conn{}, RelayEnds: map[string]*vnet.Conn{}, Online: map[string]int{}}
 	r.pc = vnet.NewPacketConn("server-sock", 443)
 	r.cfg = &Config{
 		TLSConfig:      TLSConfig{Certificates: []tls.Certificate{{}}},
